@@ -1067,6 +1067,34 @@ func (x *Exec) evalCall(env *Env, e *ECall) SV {
 		}
 		x.U.Declare(fname, rs, asorts...)
 		return SV{T: App(fname, rs, ats...), Typ: sig.Results().At(0).Type()}
+	case "addr":
+		// addr(x): the pointer under which the local x was last handed to a callee (locals live in cells; a pointer to one is
+		// materialised at the call that takes its address)
+		id, ok := e.Args[0].(*EIdent)
+		if !ok || env.fr == nil {
+			specFail("addr(x): x must be a local variable of the function")
+		}
+		fi := x.info(env.fr.fn)
+		a, isAlloc := fi.names[id.Name].(*ssa.Alloc)
+		if !isAlloc {
+			specFail("addr(%s): not an addressable local", id.Name)
+		}
+		val, has := env.fr.vals[a]
+		if !has || val.Loc == nil {
+			specFail("local %q is not allocated at this point", id.Name)
+		}
+		st := env.state()
+		for i := len(st.mats) - 1; i >= 0; i-- {
+			m := st.mats[i]
+			if m.loc != nil && m.loc.kind == val.Loc.kind && m.loc.cell == val.Loc.cell && len(m.loc.path) == 0 {
+				return SV{T: m.addr, Typ: a.Type()}
+			}
+		}
+		if val.Loc.kind == locHeap && len(val.Loc.path) == 0 {
+			return SV{T: val.Loc.addr, Typ: a.Type()}
+		}
+		// no pointer to it was handed out on this path: some pointer nothing is known about
+		return SV{T: x.freshVar("addr_"+sanitize(id.Name), SInt), Typ: a.Type()}
 	case "decoded_has", "decoded_real", "decoded_int", "decoded_bool", "decoded_str":
 		// decoded_has(src, "Field") / decoded_real(src, "Field"): what utils.DecodeToStruct found in src for that field
 		src := arg(0)
